@@ -26,6 +26,21 @@ func withStableClock(f func()) int64 {
 	}
 }
 
+// waitPhase sleeps until the wall clock is ms milliseconds (+0..60) into a second.
+func waitPhase(ms int) {
+	for {
+		cur := time.Now().Nanosecond() / 1_000_000
+		if cur >= ms && cur < ms+60 {
+			return
+		}
+		d := ms - cur
+		if d < 0 {
+			d += 1000
+		}
+		time.Sleep(time.Duration(d)*time.Millisecond + 5*time.Millisecond)
+	}
+}
+
 func verdict(err error) []byte {
 	if err == nil {
 		return B("ok")
@@ -215,10 +230,24 @@ func genC20(c *Ctx) {
 	// 1. issue: id + caveats must be exactly what the model mints
 	for _, d := range durs {
 		for _, u := range users[:3] {
-			c.Run("C20.issue", Args(pick(keys), u, "", d), "C20.issue", "", "issue")
+			c.Run("C20.issue", Args(pick(keys), u, "", d), "C20.issue", "C20.prop.issue", "issue")
 			c.Count("issue")
 		}
 	}
+	// issue at chosen phases within the second (a rounded instead of truncated clock reading
+	// shows only in the second half of a second)
+	for _, ph := range []int{50, 520, 700, 880} {
+		waitPhase(ph)
+		c.Run("C20.issue", Args("aSecretKey", "@alice:example.org", "", "30"), "C20.issue", "C20.prop.issue", fmt.Sprintf("issue at phase %dms", ph))
+		waitPhase(ph)
+		c.Run("C20.validate_issued", Args("aSecretKey", "@alice:example.org", "", "-1", "aSecretKey", "@alice:example.org", "", ""),
+			"C20.validate_issued", "C20.prop.validate_issued", fmt.Sprintf("expired-by-one at phase %dms", ph))
+		c.Count("issue-phase")
+	}
+	// a one-second token issued late in a second must be refused one second later
+	waitPhase(600)
+	c.Run("C20.validate_issued", Args("aSecretKey", "@alice:example.org", "", "1", "aSecretKey", "@alice:example.org", "+1", ""),
+		"C20.validate_issued", "C20.prop.validate_issued", "1 s token issued at phase 600ms, validated at +1 s")
 	// 2. issued token, validated under same/other key and user, optionally extended
 	extras := []string{"", "", "", "user_id = @victim:x", "gen = 1", "time < 99999999999", "time < 0", "foo = bar", "user_id = @alice:example.org", " "}
 	n := c.Scale(150, 1500)
@@ -292,7 +321,7 @@ func genC20(c *Ctx) {
 		for _, cv := range cavs {
 			args = append(args, B(cv))
 		}
-		c.Run("C20.validate_minted", args, "C20.validate_minted", "", fmt.Sprintf("minted %q", cavs))
+		c.Run("C20.validate_minted", args, "C20.validate_minted", "C20.prop.validate_minted", fmt.Sprintf("minted %q", cavs))
 		c.Count(fmt.Sprintf("validate_minted/ncav=%d", len(cavs)))
 	}
 	// 4. verifyExpiry at exact boundaries (hook)
